@@ -40,16 +40,20 @@ Definition check (k : c19case) : verdict :=
   match k with
   | CDom tol c out =>
       let wf := wf_chart c in
-      {| corr_ok := match nonempty (option_map (model_maximisers tol) (dominant_groups c)), out with
-                    | None, None => true
-                    | Some ms, Some b => existsb (Qeq_bool b) ms
-                    | _, _ => false
-                    end;
+      (* two tempo points at ONE time: pandas' sort of equal keys is unspecified (quicksort), so neither the value nor the
+         model's stable order is determined there - correspondence is demanded where the times are distinct *)
+      {| corr_ok := negb (distinct_times (tempo_times c))
+                    || match nonempty (option_map (model_maximisers tol) (dominant_groups c)), out with
+                       | None, None => true
+                       | Some ms, Some b => existsb (Qeq_bool b) ms
+                       | _, _ => false
+                       end;
          spec_ok := negb wf || dominant_specb tol c out;
          wf_ok := wf |}
   | CScroll tol c ov out =>
       let wf := wf_chart c && wf_override ov in
-      {| corr_ok := match nonempty (model_refs tol c ov), out with
+      {| corr_ok := negb (distinct_times (tempo_times c))
+                    || match nonempty (model_refs tol c ov), out with
                     | None, None => true
                     | Some refs, Some o =>
                         existsb (fun ref => match scroll_speed_with c ref with
@@ -62,7 +66,8 @@ Definition check (k : c19case) : verdict :=
          wf_ok := wf |}
   | CNorm tol c ov out =>
       let wf := wf_chart c && wf_override ov in
-      {| corr_ok := match nonempty (model_refs tol c ov), c_svs c, out with
+      {| corr_ok := negb (distinct_times (tempo_times c))
+                    || match nonempty (model_refs tol c ov), c_svs c, out with
                     | None, _, None => true
                     | Some _, None, None => true
                     | Some refs, Some _, Some o =>
